@@ -221,6 +221,10 @@ func (h *hist) apply() {
 			dropb = ts + uint32(r.Intn(3)) - 1
 		}
 	}
+	if r.Chance(6) { // a row with implicit timestamp (status rows) on a secondary shard around its start time
+		ts = 0
+		dropb = cur + uint32(r.Intn(5)) - 3
+	}
 	kind := r.Intn(6)
 	ws := kind <= 2
 	h.nextID++
@@ -263,9 +267,20 @@ func (h *hist) apply() {
 		h.fail("stored_in_two_slots", what)
 	}
 	gap := int64(cur) - int64(snd) - consts.GapSlack
-	if n == 0 && !h.stopped && gap <= 0 && keyTs >= dropb {
-		h.fail("dropped_without_reason", what)
+	// the timestamp the row must be filed under, computed here (not read back from the key the shard rewrites):
+	// 0 means "current second", future clamp, rounding down to the resolution
+	expKts := e.clampedTs
+	if effRes > 1 {
+		expKts = (e.clampedTs / effRes) * effRes
 	}
+	if n == 0 && !h.stopped && gap <= 0 && expKts >= dropb {
+		if dropb != 0 {
+			h.fail("dropped_after_secondary_start", what+fmt.Sprintf(" expected_keyts=%d", expKts))
+		} else {
+			h.fail("dropped_without_reason", what)
+		}
+	}
+	_ = keyTs
 	if n > 0 && (h.stopped || gap > 0) {
 		h.fail("accepted_while_gap_or_stopped", what)
 	}
@@ -457,14 +472,23 @@ type tagSpec struct {
 	value string
 }
 
-func mapMeta(res int) *format.MetricMetaValue {
+func mapMeta(res int, strategy string) *format.MetricMetaValue {
 	m := &format.MetricMetaValue{MetricID: 77, Name: "verif_metric", Kind: format.MetricKindCounter, Resolution: res}
 	m.Tags = make([]format.MetricMetaTag, 16)
 	m.Tags[3].RawKind = "int"
 	m.Tags[4].RawKind = "int64"
 	m.Tags[7].Name = "color"
 	_ = m.RestoreCachedInfo()
-	m.ShardStrategy = format.ShardByMetricID
+	m.ShardStrategy = strategy
+	return m
+}
+
+// metrics of the events a worker handled before (they leave their bytes in the worker's scratch buffer)
+func noiseMeta(k int, res int, strategy string) *format.MetricMetaValue {
+	m := &format.MetricMetaValue{MetricID: int32(201 + k), Name: fmt.Sprintf("verif_noise_%d", k), Kind: format.MetricKindCounter, Resolution: res}
+	m.Tags = make([]format.MetricMetaTag, 16)
+	_ = m.RestoreCachedInfo()
+	m.ShardStrategy = strategy
 	return m
 }
 
@@ -529,55 +553,125 @@ func distinctIdx(tags []tagSpec) bool {
 
 func runMap(o *vu.Out, seed uint64, i int) {
 	r := vu.NewRng(seed*1000003 + uint64(i))
-	res := []int{1, 5, 15, 60, 5, 15}[r.Intn(6)]
-	meta := mapMeta(res)
+	res := []int{1, 5, 15, 60, 5, 15, 60}[r.Intn(7)]
+	strategy := format.ShardByMetricID
+	if r.Bool() {
+		strategy = format.ShardByTagsHash // sharding marshals the MAPPED key into the worker's scratch
+	}
+	meta := mapMeta(res, strategy)
 	tags := genTags(r)
 	base := uint32(1700000000 + r.Intn(1000000))
-	// agent A: empty cache, tags as given. agent B: some values cached, tags permuted, lagging one flush behind
-	qa := agent.NewVerifQueue(base, 5, 15, 1)
-	qb := agent.NewVerifQueue(base, 5, 15, 1)
+	ts := base + uint32(r.Intn(5)) - 1
+	numShards := 1
+	secondary := r.Chance(35)
+	var start uint32
+	if secondary { // primary shard 0, secondary shard 1 with a start time
+		numShards = 2
+		meta.ShardStrategy = format.ShardFixed
+		meta.ShardFixedKey = 1
+		meta.ShardFixedKey2 = 2
+		start = uint32(int64(base) + r.Pick(-10, -1, 0, 1, 2, 1000, int64(ts)-int64(base), int64(ts)-int64(base)-int64(res)))
+		if start == 0 {
+			start = 1
+		}
+		meta.ShardFixedKey2Timestamp = start
+	}
+	// agent A: empty cache, tags as given. agent B: some values cached, tags permuted, another conveyor position.
+	// Each agent has ONE scratch buffer reused across its events, as a receiver worker has.
+	qa := agent.NewVerifQueue(base, 5, 15, numShards)
+	qb := agent.NewVerifQueue(base, 5, 15, numShards)
 	for k, v := range plainValues {
 		if r.Bool() {
 			qb.AddMapping(base, v, int32(100+k))
 		}
 	}
+	var scratchA, scratchB []byte
+	doMap := func(q *agent.VerifQueue, mt *format.MetricMetaValue, tg []tagSpec, t uint32, scratch *[]byte) (*data_model.MappedMetricHeader, *tlstatshouse.MetricBytes) {
+		m := metricBytes(tg, t)
+		m.Name = []byte(mt.Name)
+		h := &data_model.MappedMetricHeader{ReceiveTime: time.Unix(int64(base), 0), MetricMeta: mt}
+		h.Key.Metric = mt.MetricID
+		h.Key.Timestamp = t
+		q.MapEvent(m, h, scratch)
+		return h, m
+	}
+	// different earlier events on the two workers
+	prior := func(q *agent.VerifQueue, scratch *[]byte) int {
+		n := r.Intn(4)
+		for k := 0; k < n; k++ {
+			st := format.ShardByMetricID
+			if r.Bool() {
+				st = format.ShardByTagsHash
+			}
+			nm := noiseMeta(r.Intn(3), []int{1, 5, 60}[r.Intn(3)], st)
+			var tg []tagSpec
+			for t := 0; t < r.Intn(5); t++ {
+				v := plainValues[r.Intn(len(plainValues))]
+				if r.Chance(30) {
+					v = strings.Repeat(v, 5+r.Intn(10)) // long values
+				}
+				idx := 1 + r.Intn(14)
+				tg = append(tg, tagSpec{index: idx, kind: 1, name: fmt.Sprintf("%d", idx), value: v})
+			}
+			h, m := doMap(q, nm, tg, base, scratch)
+			if h.IngestionStatus == 0 {
+				q.ApplyMetric(m, h, scratch)
+			}
+		}
+		return n
+	}
+	nA := prior(qa, &scratchA)
+	nB := prior(qb, &scratchB)
 	perm := append([]tagSpec(nil), tags...)
 	for k := len(perm) - 1; k > 0; k-- {
 		j := r.Intn(k + 1)
 		perm[k], perm[j] = perm[j], perm[k]
 	}
-	ts := base + uint32(r.Intn(5)) - 1
-	doMap := func(q *agent.VerifQueue, tg []tagSpec) (*data_model.MappedMetricHeader, *tlstatshouse.MetricBytes) {
-		m := metricBytes(tg, ts)
-		h := &data_model.MappedMetricHeader{ReceiveTime: time.Unix(int64(base), 0), MetricMeta: meta}
-		h.Key.Metric = meta.MetricID
-		h.Key.Timestamp = ts
-		q.MapEvent(m, h)
-		return h, m
-	}
-	ha, ma := doMap(qa, tags)
-	hb, mb := doMap(qb, perm)
+	ha, ma := doMap(qa, meta, tags, ts, &scratchA)
+	hb, mb := doMap(qb, meta, perm, ts, &scratchB)
 	bytesA := ha.OriginalMarshalAppend(nil)
 	bytesB := hb.OriginalMarshalAppend(nil)
 	_, hashA := ha.OriginalHash(nil)
 	_, hashB := hb.OriginalHash(nil)
+	// OriginalHash on a scratch that still holds other bytes (what the worker's buffer holds now, or some bytes)
+	dirty := append([]byte(nil), scratchA...)
+	if len(dirty) == 0 || r.Chance(30) {
+		dirty = nil
+		for k := 0; k < 1+r.Intn(8); k++ {
+			dirty = append(dirty, byte(r.Intn(256)))
+		}
+	}
+	if len(dirty) > 12 {
+		dirty = dirty[:12]
+	}
+	hashedDirty, hashDirty := ha.OriginalHash(append(make([]byte, 0, 64), dirty...))
+	hashedDirty = append([]byte(nil), hashedDirty...)
 	var tt []string
 	var desc []string
 	for _, t := range tags {
 		tt = append(tt, fmt.Sprintf("(%s, %d, %s)", vu.Z(int64(t.index)), t.kind, vu.Bytes([]byte(t.value))))
 		desc = append(desc, fmt.Sprintf("%s=%q", t.name, t.value))
 	}
-	input := fmt.Sprintf("map seed=%d i=%d res=%d ts=%d tags=[%s]", seed, i, res, ts, strings.Join(desc, " "))
-	term := fmt.Sprintf("CMap %d [%s] %s", meta.MetricID, strings.Join(tt, "; "), vu.Bytes(bytesA))
-	kinds := []string{"map"}
+	input := fmt.Sprintf("map seed=%d i=%d res=%d shard=%s secondary_start=%d ts=%d base=%d prior=%d/%d tags=[%s]", seed, i, res, meta.ShardStrategy, start, ts, base, nA, nB, strings.Join(desc, " "))
+	term := fmt.Sprintf("CMap %d [%s] %s %s %s", meta.MetricID, strings.Join(tt, "; "), vu.Bytes(bytesA), vu.Bytes(dirty), vu.Bytes(hashedDirty))
+	kinds := []string{"map", "map/shard-" + meta.ShardStrategy}
 	distinct := distinctIdx(tags)
 	if distinct {
 		kinds = append(kinds, "map/distinct-tags")
+	}
+	if secondary {
+		kinds = append(kinds, "map/secondary-shard")
+	}
+	if len(scratchA) != 0 || len(scratchB) != 0 {
+		kinds = append(kinds, "map/worker-scratch-dirty")
 	}
 	line := o.Case(input, term, len(tags) > 0, kinds...)
 	if ha.IngestionStatus != 0 || hb.IngestionStatus != 0 {
 		o.Fail("map_rejected_valid_event", line, input)
 		return
+	}
+	if hashDirty != hashA || string(hashedDirty) != string(bytesA) {
+		o.Fail("original_hash_depends_on_cache_or_order", line, input+fmt.Sprintf(" :: OriginalHash over a scratch holding %d leftover bytes hashes %d bytes, over an empty one %d", len(dirty), len(hashedDirty), len(bytesA)))
 	}
 	if distinct {
 		if string(bytesA) != string(bytesB) || hashA != hashB {
@@ -585,9 +679,20 @@ func runMap(o *vu.Out, seed uint64, i int) {
 		}
 	}
 	// the same event through ApplyMetric on both agents; B's conveyor state differs but the row is late on neither
-	step := func(q *agent.VerifQueue, ms int64) (uint32, []agent.VerifQueueItem, bool) {
-		q.Flush(time.Unix(ms/1000, (ms%1000)*1000000))
-		return q.Drain()
+	type got struct {
+		t     uint32
+		items []agent.VerifQueueItem
+	}
+	step := func(q *agent.VerifQueue, ms int64) []got {
+		var out []got
+		for sh := 0; sh < q.NumShards(); sh++ {
+			qs := q.Shard(sh)
+			qs.Flush(time.Unix(ms/1000, (ms%1000)*1000000))
+			if t, items, ok := qs.Drain(); ok {
+				out = append(out, got{t, items})
+			}
+		}
+		return out
 	}
 	nowMs := int64(base)*1000 + 400
 	if r.Bool() { // B already sent second base-2 and base-1, A did not
@@ -597,21 +702,52 @@ func runMap(o *vu.Out, seed uint64, i int) {
 	curA, sndA := qa.Times()
 	curB, sndB := qb.Times()
 	notLate := ts >= sndA && ts >= sndB && ts <= curA+uint32(consts.FutureSlots) && ts <= curB+uint32(consts.FutureSlots)
-	qa.ApplyMetric(ma, ha)
-	qb.ApplyMetric(mb, hb)
+	qa.ApplyMetric(ma, ha, &scratchA)
+	qb.ApplyMetric(mb, hb, &scratchB)
+	if secondary {
+		// "dropped on a secondary shard only before its configured start time": the OK status row has the implicit
+		// timestamp 0 (= current second), the event row its rounded timestamp
+		for name, q := range map[string]*agent.VerifQueue{"A": qa, "B": qb} {
+			cur, _ := q.Times()
+			cts := ts
+			if cts > cur+uint32(consts.FutureSlots) {
+				cts = cur + uint32(consts.FutureSlots)
+			}
+			kts := (cts / uint32(res)) * uint32(res)
+			haveStatus, haveRow := false, false
+			for idx := 0; idx < int(consts.QueueLen); idx++ {
+				for _, it := range q.Shard(1).RingItems(idx) {
+					if it.Status && it.ID == agent.VerifQueueStatusOK() && it.Metric == meta.MetricID {
+						haveStatus = true
+					}
+					if !it.Status && it.Metric == meta.MetricID {
+						haveRow = true
+					}
+				}
+			}
+			if cur >= start && !haveStatus {
+				o.Fail("dropped_after_secondary_start", line, input+fmt.Sprintf(" :: agent %s: status row with implicit timestamp (current second %d) missing on the secondary shard", name, cur))
+			}
+			if kts >= start && !haveRow {
+				o.Fail("dropped_after_secondary_start", line, input+fmt.Sprintf(" :: agent %s: event row keyts=%d missing on the secondary shard", name, kts))
+			}
+		}
+	}
 	find := func(q *agent.VerifQueue) (uint32, int) {
 		found, at := 0, uint32(0)
 		for k := 0; k < 200; k++ {
 			nowMs2 := nowMs + int64(k)*1000
 			for {
-				t, items, ok := step(q, nowMs2)
-				if !ok {
+				bs := step(q, nowMs2)
+				if len(bs) == 0 {
 					break
 				}
-				for _, it := range items {
-					if !it.Status && it.Metric == meta.MetricID {
-						found++
-						at = t
+				for _, b := range bs {
+					for _, it := range b.items {
+						if !it.Status && it.Metric == meta.MetricID {
+							found++
+							at = b.t
+						}
 					}
 				}
 			}
@@ -620,13 +756,17 @@ func runMap(o *vu.Out, seed uint64, i int) {
 	}
 	ta, na := find(qa)
 	tb, nb := find(qb)
-	if na != 1 || nb != 1 {
-		o.Fail("delivered_exactly_once", line, input+fmt.Sprintf(" :: ApplyMetric row delivered %d/%d times", na, nb))
-	} else if distinct && notLate && ta != tb {
-		o.Fail("same_series_different_second", line, input+fmt.Sprintf(" :: agent A sends in %d, agent B in %d", ta, tb))
-	}
-	if na == 1 && ta < ts && notLate {
-		o.Fail("bucket_before_timestamp", line, input+fmt.Sprintf(" :: ts=%d bucket=%d", ts, ta))
+	if !secondary {
+		if na != 1 || nb != 1 {
+			o.Fail("delivered_exactly_once", line, input+fmt.Sprintf(" :: ApplyMetric row delivered %d/%d times", na, nb))
+		} else if distinct && notLate && ta != tb {
+			o.Fail("same_series_different_second", line, input+fmt.Sprintf(" :: agent A sends in %d, agent B in %d", ta, tb))
+		}
+		if na == 1 && ta < ts && notLate {
+			o.Fail("bucket_before_timestamp", line, input+fmt.Sprintf(" :: ts=%d bucket=%d", ts, ta))
+		}
+	} else if na > 2 || nb > 2 || na < 1 || nb < 1 {
+		o.Fail("delivered_exactly_once", line, input+fmt.Sprintf(" :: ApplyMetric row delivered %d/%d times over two shards", na, nb))
 	}
 }
 
